@@ -817,9 +817,30 @@ func rootsAreLoadedOnlyWhenAskedFor(c *core.Ctx) {
 func hashKeysTakeTheValueAsItIs(c *core.Ctx) {
 	p := c.P
 	n := 0
+	hkT := core.MustType(p.Pkg("object"), "HashKey")
 	for _, fn := range repoFns(p, "object") {
-		if fn.Name() != "HashKey" || fn.Signature.Recv() == nil || fn.Parent() != nil {
+		if fn.Parent() != nil {
 			continue
+		}
+		if fn.Name() != "HashKey" || fn.Signature.Recv() == nil {
+			// ... or any other function that makes a key itself (it fills
+			// the fields of a HashKey): a lookup under a key made for the
+			// occasion is held to the same standard
+			makes := false
+			for _, b := range fn.Blocks {
+				for _, in := range b.Instrs {
+					if st, ok := in.(*ssa.Store); ok {
+						if fa, ok := st.Addr.(*ssa.FieldAddr); ok && core.NamedOf(fa.X.Type()) == hkT {
+							if _, isK := st.Val.(*ssa.Const); !isK {
+								makes = true
+							}
+						}
+					}
+				}
+			}
+			if !makes {
+				continue
+			}
 		}
 		n++
 		bad := ""
